@@ -45,5 +45,9 @@ IsSym(A)       == \A i \in 1..Len(A) : \A j \in 1..Len(A) : A[i][j] = A[j][i]
 Ident(n, one)  == Eager([i \in 1..n |-> Eager([j \in 1..n |-> IF i = j THEN one ELSE Zero])])
 ZeroVec(n)     == Eager([i \in 1..n |-> Zero])
 ZeroMat(r, c)  == Eager([i \in 1..r |-> ZeroVec(c)])
+(* sum of a sequence of d x d matrices, from position i on *)
+RECURSIVE SumMatsR(_, _, _)
+SumMatsR(f, i, d) == IF i > Len(f) THEN ZeroMat(d, d) ELSE MAdd(f[i], SumMatsR(f, i + 1, d))
+SumMats(f, i, d) == SumMatsR(Eager(f), i, d)
 MatInner(A, C) == Sum([i \in 1..Len(A) |-> Dot(A[i], C[i])])   \* <A, C> = tr(A^T C)
 =============================================================================
